@@ -92,3 +92,37 @@ fn callbacks_boxed_system_and_empty()
     std::mem::forget(world); std::mem::forget(cb);
     kani::cover!(true, "end of harness reached");
 }
+
+/// C13: `initialize()` on a callback that has already run is a no-op: the wrapped system is initialized exactly once in
+/// its life (Bevy REBUILDS an exclusive system's parameter state - its `Local`s - on every `initialize`, so forwarding a
+/// second `initialize` would reset the system's state); checked for the raw and the boxed callback, exclusive and ordinary.
+#[kani::proof]
+#[kani::stub(core::any::TypeId::of, crate::vh::stub_typeid_of)]
+#[kani::stub(<core::any::TypeId as crate::vh::PEq>::eq, crate::vh::stub_typeid_eq)]
+#[kani::unwind(4)]
+fn callbacks_initialize_after_run_is_a_noop()
+{
+    let mut world = World::new();
+    world.m_apply_via_fn_pointer();      // exclusive systems queue their cleanup as an (unnameable) closure command
+    world.insert_resource(Log{ items: [0; 8], n: 0 });
+    let mut excl = RawCallbackSystem::new(|w: &mut World| { w.resource_mut::<Log>().push(7); });
+    let _ = excl.run_with_cleanup(&mut world, (), cleanup_marker);
+    excl.initialize(&mut world);
+    excl.initialize(&mut world);
+    let _ = excl.run_with_cleanup(&mut world, (), cleanup_marker);
+    if let RawCallbackSystem::Initialized(sys) = &excl { assert!(sys.m_inits == 1, "C13: an exclusive system is initialized exactly once, however often initialize() is called on its callback"); }
+    else { panic!("C13: Initialized after a run"); }
+    let mut ord = RawCallbackSystem::new(|mut runs: Local<u8>, mut log: ResMut<Log>| { *runs += 1; log.push(20 + *runs); });
+    let _ = ord.run_with_cleanup(&mut world, (), cleanup_marker);
+    ord.initialize(&mut world);
+    let _ = ord.run_with_cleanup(&mut world, (), cleanup_marker);
+    if let RawCallbackSystem::Initialized(sys) = &ord { assert!(sys.m_inits == 1, "C13: initialized exactly once"); }
+    let log = world.resource::<Log>();
+    assert!(log.n == 8 && log.items[4] == 21 && log.items[6] == 22, "C13: the Local continues across an intervening initialize()");
+    let mut boxed: CallbackSystem<(), ()> = CallbackSystem::new(|w: &mut World| { w.resource_mut::<Log>(); });
+    let _ = boxed.run_with_cleanup(&mut world, (), |_| {});
+    boxed.initialize(&mut world);
+    assert!(boxed.is_initialized());
+    kani::cover!(true, "end of harness reached");
+    std::mem::forget(world); std::mem::forget(excl); std::mem::forget(ord); std::mem::forget(boxed);
+}
